@@ -105,7 +105,25 @@ if ROUND == 6:
               "C17L": "the reverse flag of khatrirao as a numpy boolean",
               "C20K": "aggregated values stored in 8 bits",
               "C20L": "every generator call returns a new object (the first result is overwritten before the second call)"}
-for d in sorted(SRC.glob("C??[CDEFGHIJKL]")):
+if ROUND == 7:
+    MISSED = {"C02M": "the norm of a Kruskal tensor that denotes zero (difference of two parameterisations) is a number",
+              "C02N": "an order-sensitive reducer (weighted sum over the first-index-fastest vector of selected entries)",
+              "C03M": "Elementwise_Big: operands with more than 2048 stored entries, values position by position",
+              "C04M": "linear slices with bounds counted from the end, running past the end, and with step -1",
+              "C05M": "the diagonal generators fed with the caller's arrays",
+              "C06N": "a sparse block assigned through an index list that grows the first mode by one",
+              "C07M": "the order argument as unsigned / narrow integer arrays",
+              "C08M": "every factor huge and the weights tiny: only the product of the column norms leaves the double range",
+              "C09M": "starting guesses made of coordinate vectors (Gram matrices with exact zeros)",
+              "C11N": "a starting guess with a weight that is exactly zero",
+              "C14N": "the sign flag as a numpy boolean / 0-1 integer",
+              "C16M": "an export with explicit lossy formats precedes every default-format export",
+              "C18M": "runs ended by the time limit under different printing intervals",
+              "C18N": "the same counts times 60 kept in 16 bits for hosvd",
+              "C19M": "a column and a row unfolding of one tensor shape in tenmat addition",
+              "C19N": "constructors called with copy=False",
+              "C20M": "the same entries in an index space of more than 2^64 cells"}
+for d in sorted(SRC.glob("C??[CDEFGHIJKLMN]")):
     rj = d / "result.json"
     if not rj.exists():
         print(d.name, "no result"); continue
